@@ -8,6 +8,13 @@ from harness import redex as RX
 from harness import trace as T
 from .common import *
 
+
+def _sanitize(m):
+    from harness.sanitize import sanitize
+    return sanitize(m)
+
+
+
 ID = "C11"
 RULE = ("(a) EXHAUSTIVE enumeration of small skeletons: every parent x child x grandchild over the 15 constructors "
         "(n in {1,2,3,4,6}, exponential bases {e,2,1}, log bases {e,2}, binary/2-ary parents over all depth<=2 "
@@ -141,6 +148,7 @@ def skeleton_blocks():
 def invariant(stats, m, sub, big=False):
     """Drives the simplifier on a fresh build of m (streaming: constant memory) and checks the
     trace invariant."""
+    m = safe(m)
     stats.case()
     s = M.size(m)
     step_bound = s * s + 10 * s + 50
@@ -269,7 +277,7 @@ def long_chains(draw, names):
             m = (t, m, draw(st.sampled_from([math.e, 2, 1])))
         else:
             m = (t, m, draw(st.sampled_from([math.e, 2])))
-    return M.cap_powers(m)
+    return _sanitize(m)
 
 
 def make_chains(stats):
